@@ -1,6 +1,9 @@
 (* Executable comparators used by the correspondence check of C10 (definitions only).
    One case = one call of <integrator>.integrate(spectrum, ..., material, start_point, end_point,
-   world_to_primitive, ...) on the real implementation.  The model is evaluated here, inside Coq. *)
+   world_to_primitive, ...) on the real implementation.  The model is evaluated here, inside Coq.
+   Inputs of the model: [start], [stop] = the two points after raysect's Point3D.transform (raysect is not
+   modelled; the harness obtains them from the same raysect call), [len] = the double the implementation
+   obtained for |stop - start| (checked by len_ok). *)
 Require Import Cherab.Common.Qx Cherab.Model.C10_RayTransfer.
 From Coq Require Import Qabs Qround.
 Open Scope Q_scope.
@@ -9,14 +12,6 @@ Open Scope Q_scope.
 Definition amb_eps : Q := pow2 (-40).     (* a sample closer than this (relative) to a cell border is ambiguous *)
 Definition rel_tol : Q := pow2 (-36).     (* accumulated rounding of <= a few thousand additions of dt *)
 Definition len_tol : Q := pow2 (-30).     (* len*len against the exact |end-start|^2 *)
-
-(* Point3D.transform by an affine matrix given by its first three rows (12 numbers) *)
-Definition mapply (m : list Q) (p : vec) : vec :=
-  match m with
-  | [a; b; c; d; e; f; g; h; i; j; k; l] =>
-    let '(x, y, z) := p in (a * x + b * y + c * z + d, e * x + f * y + g * z + h, i * x + j * y + k * z + l)
-  | _ => p
-  end.
 
 Definition len_ok (len : Q) (d : vec) : bool :=
   Qle_bool 0 len && Qle_bool (Qabs (len * len - vdot d d)) (len_tol * vdot d d).
@@ -72,17 +67,15 @@ Definition spec_of_list (l : list Q) : spectrum := fun j => if (j <? 0)%Z then 0
    2 = agree within dt * (number of ambiguous samples), 3 = ray leaves the grid with ambiguous samples
    (nothing compared). *)
 Definition check_call (cellfn : vec -> cell) (ambfn : vec -> vec -> bool) (sh : shape) (vm : list Z)
-           (stp : Q) (min_samples : Z) (m : list Q) (p0 p1 : vec) (len : Q)
+           (stp : Q) (min_samples : Z) (start stop : vec) (len : Q)
            (init out : list Q) (err : Z) : Z :=
-  let start := mapply m p0 in let stop := mapply m p1 in
-  let d := vsub stop start in
+  let d := let '(a, b, c) := vsub stop start in (Qred a, Qred b, Qred c) in
   if negb (len_ok len d) then 0%Z else
   if too_short len stp then (if (err =? 0)%Z && forallb2 Qeq_bool init out then 1 else 0)%Z
   else
     let n := nsamples min_samples len stp in
     let dt := dt_of len n in
-    let dir := vscale (/ len) d in
-    let pts := sample_points start dir dt n in
+    let pts := sample_points_lam start d n in
     let cells := map cellfn pts in
     let namb := countp (ambfn d) pts in
     let outside := existsb (fun c => negb (in_grid sh c)) cells in
